@@ -4,8 +4,10 @@ import (
 	"encoding/hex"
 	"fmt"
 	"math/big"
+	"time"
 
 	pb "github.com/google/go-tdx-guest/proto/tdx"
+	"github.com/google/go-tdx-guest/verify/trust"
 	"verif/sim/core"
 	"verif/sim/world"
 )
@@ -382,6 +384,33 @@ func c01Run(r *core.Run) {
 		r.State("forgery %s auth=%s", f.name, lenBucket(len(w.Quote.Auth)))
 		r.EndItem()
 	}
+	// (e) the same forgeries while the collateral seam misbehaves: a getter that panics or fails at its
+	// k-th fetch.  Whatever happens to the fetch, a forgery is never accepted (a panic that reaches the
+	// caller is not an acceptance).
+	if r.Item("forgery-under-getter-fault") {
+		fs := c01Forgeries(r, w)
+		for k := 1; k <= 4; k++ {
+			for _, mode := range []string{"panic", "error", "nil-getter-inside-retry"} {
+				f := fs[(k*7+len(mode))%8] // one of the links-broken forgeries
+				if f.q == nil {
+					continue
+				}
+				var g trust.HTTPSGetter = &faultyGetter{inner: w.PCS, failAt: k, mode: mode}
+				if mode == "nil-getter-inside-retry" {
+					g = &trust.RetryHTTPSGetter{Timeout: time.Millisecond, MaxRetryDelay: time.Millisecond} // no wrapped getter: nil dereference on first use
+				}
+				for _, level := range []int{O1, O2} {
+					o := verifyRaw(f.q.Bytes(), mkOpts(level, g, w.Pool, w.Times))
+					judge("forgery-under-getter-"+mode, fmt.Sprintf("%s with a getter that %ss at fetch %d", f.name, mode, k), o, optNames[level], "RawTdxQuote")
+					o = verifyMsg(f.q.Proto(0), mkOpts(level, g, w.Pool, w.Times))
+					judge("forgery-under-getter-"+mode, fmt.Sprintf("%s with a getter that %ss at fetch %d", f.name, mode, k), o, optNames[level], "TdxQuote(message)")
+				}
+			}
+		}
+		r.Fault("pcs:getter_panics_or_fails_at_kth_fetch", true)
+		r.Probe("forgery_under_getter_fault")
+		r.EndItem()
+	}
 	r.Sample("world %s: %d forged/resized/truncated/mutated quotes, all rejected; e.g. links-broken:L2 (QE report-data changed, QE report re-signed by the genuine PCK key)", w.Describe(), 60)
 }
 
@@ -436,6 +465,6 @@ func init() {
 			return 24
 		},
 		Run:       c01Run,
-		MustProbe: []string{"bitflips_enumerated", "message_high_bits"},
+		MustProbe: []string{"bitflips_enumerated", "message_high_bits", "forgery_under_getter_fault"},
 	})
 }
